@@ -652,3 +652,30 @@ package rueidis
 // in-flight entry, every eviction takes exactly the evicted entry's size off the account, and it stops only when the
 // size is within the limit or the whole list has been walked.
 // (the clauses are part of the contract of lru.Update above, next to its C07 clause)
+
+// ---------------------------------------------------------------------------------------------
+// C19 — topology parsing and redirects (cluster.go). Parsing never crashes on malformed replies (safety, no precondition
+// on the reply beyond the message invariant); CLUSTER SHARDS slot lists are read pairwise — range k of a shard is
+// (slots[2k], slots[2k+1]) and a shard has len(slots)/2 ranges; an ASK redirect never re-points a slot (only MOVED does, and
+// only for a real slot), and a redirect returns the connection registered for the named node.
+//@ func parseSlots
+//@   modifies *
+//@   safety C19 index,slice,makeslice,nil,assert-type
+//@   loop 0: invariant [C19] rangeindex >= -1
+//@   loop 1: invariant [C19] i >= 2
+
+//@ func parseShards
+//@   modifies *
+//@   safety C19 index,slice,makeslice,nil,assert-type
+//@   assert [C19 range-k-starts-at-slots-2k] at AsInt64#1: *arg0 == slots[i * 2] && 0 <= i && i * 2 + 1 < len(slots)
+//@   assert [C19 range-k-ends-at-slots-2k-plus-1] at AsInt64#2: *arg0 == slots[i * 2 + 1]
+//@   loop 0: invariant [C19] rangeindex >= -1
+//@   loop 1: invariant [C19] rangeindex >= -1 && len(g.slots) * 2 <= len(slots) && len(g.slots) == len(slots) / 2
+//@   loop 2: invariant [C19] rangeindex >= -1 && (m == -1 || (0 <= m && m < len(g.nodes)))
+
+//@ immutable [C19] clusterClient wslots writers=clusterClient.redirectOrNew,clusterClient._refresh
+//@ func clusterClient.redirectOrNew
+//@   modifies *
+//@   ensures [C19 only-a-moved-redirect-re-points-a-slot] mode != RedirectMove ==> c.wslots == old(c.wslots)
+//@   ensures [C19 a-redirect-without-a-slot-re-points-nothing] slot == 16384 ==> c.wslots == old(c.wslots)
+//@   ensures [C19 a-moved-redirect-touches-only-its-own-slot] forall k int :: (0 <= k && k < 16384 && k != slot) ==> c.wslots[k] == old(c.wslots[k])
